@@ -11,7 +11,10 @@ EXPLANATION = ("Static rules over quinn-proto/quinn MIR: (a) every site that tak
                "start..end and re-queues end..range.end from the same `end`; (f) single feeder chain into the receive Assembler; (g) Chunks::next reports end-of-stream only "
                "when the final size is known AND everything up to it was read, and a reset with the stored code; (h) STREAM frame bytes come from the "
                "polled SendBuffer range (shared with C05.f); (i) the ordered->unordered switch records the consumed prefix as received; the async "
-               "ReadToEnd starts from an unset offset. Byte-exactness of Assembler/RangeSet arithmetic and of SendBuffer beyond that split is NOT decided.")
+               "ReadToEnd starts from an unset offset; Buffer::try_mark_defragment leaves the chunk offset >= the running end on every path (defragment's trimming position never "
+               "falls back); (e, cont.) SendBuffer::poll_transmit omits the STREAM length field only over the edge `room <= available bytes` and clamps the range to that same room "
+               "(a length-less frame reaches the end of the room, so padding is never parsed as stream data). Byte-exactness of Assembler/RangeSet arithmetic and of SendBuffer "
+               "beyond these shapes is NOT decided.")
 RULE = "rule instances = (rule, site) pairs over MIR call sites / flows / branches; non-trivial = bound to at least one real site"
 
 
@@ -396,6 +399,7 @@ def rule_e(ctx):
             okf, whyf = False, ': a path on which the stream exists and frame.fin is set skips the store'
     ctx.check(okf, 'e', 'lost_fin_requeued', rt, rt.where(), 'fin_pending |= frame.fin', 'a lost FIN is no longer (always) re-queued, or a pending FIN can be cleared' + whyf)
     rule_e_split(ctx)
+    rule_e_length(ctx)
 
 
 def rule_e_split(ctx):
@@ -449,6 +453,138 @@ def rule_e_split(ctx):
                                       '(insert(end..range.end) unless end == range.end)' % D.render(E)[:160])
         ctx.check(ok, 'e', 'retransmit_split_conserves_range', pt, c.where(), '(range.start..end) returned, (end..range.end) re-queued unless end == range.end, one `end`',
                   'bytes of a lost range can be dropped from the retransmit queue without being sent: ' + why)
+
+
+def _leaf_defs(d, body, op, bb, idx, depth=0):
+    """definitions that can supply the value of MIR operand `op` at (bb, idx), looking through plain copies/moves of whole
+    locals: list of (block of the definition, descriptor of the defined value).  A constant operand is `defined` where it is used."""
+    if op[0] not in ('c', 'm'):
+        return [(bb, d.operand(op, bb, idx))]
+    local, proj = op[1]
+    if proj or depth > 8:
+        return [(bb, d.place(op[1], bb, idx))]
+    out = []
+    for df in d.reaching_defs(local, bb, idx):
+        if df[0] == 'stmt' and df[3][0] == 'use':
+            out.extend(_leaf_defs(d, body, df[3][1], df[1], df[2], depth + 1))
+        elif df[0] == 'stmt':
+            out.append((df[1], d.rvalue(df[3], df[1], df[2], 0)))
+        elif df[0] == 'call':
+            out.append((df[1], d.call_desc(df[2], 0)))
+        else:
+            out.append((bb, ('local', local, body.locals[local][1])))
+    return out
+
+
+def _int_const(x):
+    return isinstance(x, tuple) and len(x) > 2 and x[0] == 'const' and x[1] == 'int'
+
+
+def _minus_const(m):
+    """`x - <integer constant>` (operator or *_sub method) -> x, else None"""
+    if m[0] == 'bin' and m[1] == 'Sub' and _int_const(m[3]):
+        return m[2]
+    if m[0] == 'call' and _meth(m[1]) in ('saturating_sub', 'wrapping_sub') and len(m[3]) == 2 and _int_const(m[3][1]):
+        return m[3][0]
+    return None
+
+
+def _sum_with(x, one):
+    """x is `a + one` / `a.saturating_add(one)` (either operand order) -> a, else None"""
+    if x[0] == 'bin' and x[1] == 'Add':
+        ops = (x[2], x[3])
+    elif x[0] == 'call' and _meth(x[1]) in ('saturating_add', 'wrapping_add') and len(x[3]) == 2:
+        ops = x[3]
+    else:
+        return None
+    for i in (0, 1):
+        if _nobb(ops[i]) == _nobb(one):
+            return ops[1 - i]
+    return None
+
+
+def rule_e_length(ctx):
+    """SendBuffer::poll_transmit returns (start..end, needs_length).  A STREAM frame written without a length field extends to
+    the end of the packet, so whatever follows it in the datagram (PADDING of a GSO segment / pad_to_mtu) is parsed as stream
+    data.  Obligation, for every returned tuple: with end = min(avail_end, start + room'),
+      (1) the flag can be false only on paths that crossed an edge on which `room <= avail_end - start` holds, `room` being the
+          unshifted room (the room parameter less non-literal reductions such as the offset varint);
+      (2) room' IS that compared room, or the compared room less a constant (the reserved length field), and
+      (3) such a constant reservation is not executed on the `room <= avail` edge,
+    so that a frame without length covers exactly `room` bytes.  Always encoding the length is safe and accepted."""
+    F = ctx.facts
+    pt = ctx.pfn('SendBuffer::poll_transmit')
+    d = describer(F, pt)
+    live = pt.live_blocks()
+    outs = [(df[1], df[2], df[3]) for df in pt.defs_of(0) if df[0] == 'stmt' and df[1] in live]
+    ctx.floor('e', 'length_flag_sites', len(outs), 2)
+    brs = branches(F, pt)
+    assigns = [(i, d.rvalue(rv, i, j, 0)) for i, j, pl, rv, line in pt.assigns() if i in live and rv[0] == 'bin']
+    assigns += [(c.bb, d.call_desc(c, 0)) for c in pt.calls() if c.bb in live and c.f and _meth(short(c.f)) in ('saturating_sub', 'wrapping_sub')]
+    for rb, idx, rv in outs:
+        v = d.rvalue(rv, rb, idx, 0)
+        ok, why = True, ''
+        if not (rv[0] == 'agg' and len(rv[2]) == 2 and v[0] == 'agg' and v[1] == 'tuple' and len(v[3]) == 2 and _is_range(v[3][0], lambda s: True, lambda e: True)):
+            ctx.bad('e', 'length_omitted_only_when_frame_fills_room', pt, pt.where(), 'the returned value is not a (start..end, flag) tuple built in place: %s' % D.render(v)[:200])
+            continue
+        St, En = v[3][0][3]
+        # end = min(avail_end, start + room')   (receiver / argument in either order)
+        avail_end = room2 = None
+        if _is_call(En, 'Ord::min', 'cmp::min') and len(En[3]) == 2:
+            for i in (0, 1):
+                r2 = _sum_with(En[3][i], St)
+                if r2 is not None:
+                    avail_end, room2 = En[3][1 - i], r2
+        if room2 is None:
+            ctx.bad('e', 'length_omitted_only_when_frame_fills_room', pt, pt.where(), 'the returned end is not min(available end, start + room): %s' % D.render(En)[:240])
+            continue
+        avail = _nobb(('bin', 'Sub', avail_end, St))
+        # edges on which `room <= avail_end - start` holds, room carrying the room parameter and no literal shift
+        good, rooms = set(), []
+        for br in brs:
+            for truth in (True, False):
+                rel = relation_on(br.desc, truth)
+                if rel is None or rel[0] not in ('Le', 'Lt') or _nobb(rel[2]) != avail:
+                    continue
+                if D.const_offsets(rel[1]) or not any(x[0] == 'param' and x[1] != 1 for x in D.walk(rel[1])):
+                    why = 'the branch at %s compares the available bytes with %s, which is not the unshifted room' % (br.where(), D.render(rel[1])[:160])
+                    continue
+                good.add((br.bb, br.target(1 if truth else 0)))
+                rooms.append(rel[1])
+        accepted = {_nobb(x) for r in rooms for x in [r] + flat(r)}
+
+        def fills(val):
+            rel = relation_on(val, False)
+            return rel is not None and rel[0] in ('Le', 'Lt') and _nobb(rel[2]) == avail and _nobb(rel[1]) in accepted
+        # (1) the flag
+        leafs = _leaf_defs(d, pt, rv[2][1], rb, idx)
+        for fb, val in leafs:
+            if _int_const(val) and str(val[2]) == '1':
+                continue
+            if _int_const(val) and str(val[2]) == '0':
+                others = {b for b, x in leafs if b != fb}
+                if fb in pt.reachable_from(0, avoid_edges=good) and rb in pt.reachable_from(fb, avoid=others, avoid_edges=good):
+                    ok = False
+                    why = ('the flag can be false on a path that never established room <= available bytes (available = %s)%s'
+                           % (D.render(avail)[:120], ('; ' + why) if why else ''))
+            elif not (good and fills(val)):
+                ok, why = False, 'the flag value %s is not `available bytes < room` for the room the range is clamped to' % D.render(val)[:200]
+        # (2) + (3) the room used for the clamp is the compared one; constant reservations only where the length is encoded
+        if ok:
+            for m in flat(room2):
+                if _nobb(m) in accepted:
+                    continue
+                x = _minus_const(m)
+                if x is None or _nobb(x) not in accepted:
+                    ok, why = False, 'the range is clamped to %s, which is not the room that was compared with the available bytes' % D.render(m)[:200]
+                    break
+                res = {i for i, a in assigns if _nobb(a) == _nobb(m)}
+                for hb, tgt in good:
+                    after = pt.reachable_from(tgt)
+                    if any(r in after and rb in pt.reachable_from(r) for r in res):
+                        ok, why = False, 'the room is reduced by a constant (%s) also on the path that omits the length field: the frame ends short of the room' % D.render(m)[:160]
+        ctx.check(ok, 'e', 'length_omitted_only_when_frame_fills_room', pt, pt.where(), 'range %s..: flag false only over room <= available, end = min(avail_end, start + that room)' % D.render(St)[:80],
+                  'a STREAM frame can be emitted without a length field although it does not reach the end of the room (trailing padding would be read as stream data): ' + why)
 
 
 def rule_f(ctx):
@@ -515,6 +651,60 @@ def rule_i(ctx):
     ctx.check(okk and bool(cons), 'i', 'read_to_end_starts_unset', rte, rte.where(), 'ReadToEnd{start: u64::MAX}', 'ReadToEnd no longer starts from an unset offset: data read before read_to_end would be replaced by zero bytes')
 
 
+def rule_i_defragment(ctx):
+    """Assembler::defragment walks the buffered chunks in offset order and trims every chunk against the running end
+    `chunk.offset + chunk.bytes.len()` of the chunk before it; unordered reads then deliver the chunks as they are ("overlap is
+    resolved by try_mark_defragment").  The running end stays monotone only if Buffer::try_mark_defragment(at) leaves
+    `self.offset >= at` on EVERY path, also when the chunk is emptied: otherwise the end falls back and the next chunk keeps bytes
+    that an earlier chunk already covers (delivered twice).  Obligation: every store to Buffer.offset in that function has a
+    value that is >= `at` by construction and never below the old offset, and a return is reachable without such a store only
+    over an edge on which `at <= self.offset` is established."""
+    F = ctx.facts
+    tm = ctx.pfn('Buffer::try_mark_defragment')
+    who_may_call(ctx, 'i', 'try_mark_defragment_callers', ['Buffer::try_mark_defragment'], ['Assembler::defragment'], floor=1)
+    at = lambda x: x[0] == 'param' and x[1] == 2
+    cur = lambda x: _is_pfield(x, 'self', 'offset')
+    excess = lambda x: x[0] == 'call' and _meth(x[1]) == 'saturating_sub' and len(x[3]) == 2 and at(x[3][0]) and cur(x[3][1])
+    zero = lambda x: _int_const(x) and str(x[2]) == '0'
+
+    def raises(v):
+        if at(v):
+            return True                                     # self.offset = at (only ever under at > self.offset, or >= at anyway)
+        if _is_call(v, 'Ord::max', 'cmp::max') and len(v[3]) == 2:
+            return (at(v[3][0]) and cur(v[3][1])) or (at(v[3][1]) and cur(v[3][0]))
+        if v[0] == 'bin' and v[1] == 'Add':                 # self.offset += at.saturating_sub(self.offset)
+            return (cur(v[2]) and excess(v[3])) or (cur(v[3]) and excess(v[2]))
+        return False
+    stores = store_values(ctx, 'Buffer', 'offset', in_fn=tm)
+    ok, why = tm.argc == 2, '' if tm.argc == 2 else 'unexpected signature'
+    done = set()
+    for w, v in stores:
+        if raises(v):
+            done.add(w.bb)
+        else:
+            ok, why = False, 'the store at %s writes %s, which is not max(self.offset, <running end>)' % (w.where(), D.render(v)[:160])
+    if ok and not done:
+        ok, why = False, 'no store to Buffer.offset left'
+    if ok:
+        ex = set()
+        for br in branches(F, tm):
+            for truth in (True, False):
+                rel = relation_on(br.desc, truth)
+                if rel is None:
+                    continue
+                op, a, b = rel
+                if (op in ('Le', 'Lt') and at(a) and cur(b)) or (op == 'Eq' and ((at(a) and cur(b)) or (at(b) and cur(a)))) \
+                        or (op == 'Eq' and ((excess(a) and zero(b)) or (excess(b) and zero(a)))) or (op == 'Le' and excess(a) and zero(b)):
+                    ex.add((br.bb, br.target(1 if truth else 0)))
+        reach = tm.reachable_from(0, avoid=done, avoid_edges=ex)
+        bad = [r for r in tm.return_blocks() if r in reach]
+        if bad:
+            ok, why = False, 'a return is reachable without advancing self.offset to the running end: ' + fmt_path(tm, path_avoiding(tm, [0], bad, done) or [])
+    ctx.check(ok, 'i', 'defragment_chunk_offset_reaches_running_end', tm, tm.where(), 'self.offset = max(self.offset, at) on every path (%d store(s))' % len(stores),
+              'after try_mark_defragment(at) a chunk can keep an offset below the running end: the next chunk is trimmed against a position that fell back and '
+              'bytes already covered by an earlier chunk stay buffered (unordered reads deliver them twice): ' + why)
+
+
 def run(ctx):
     rule_a(ctx)
     rule_b(ctx)
@@ -524,4 +714,5 @@ def run(ctx):
     rule_f(ctx)
     rule_g(ctx)
     rule_i(ctx)
+    rule_i_defragment(ctx)
     ctx.info('h', 'STREAM frame bytes/ranges provenance is rule C05.f (shared)')
